@@ -93,7 +93,22 @@ def _filled(n: int, fill_hex: str) -> bytearray:
     return bytearray((fill * (n // len(fill) + 1))[:n])
 
 
+def p2p_classify(data: bytes) -> str:
+    """datagram kind by the framing alone (used for truncated datagrams, whose kind is no longer the kind they were cut from)"""
+    if data[:3] == b"P2P":
+        t = data[20] if len(data) > 20 else 0
+        for k, v in TYPE.items():
+            if t == v:
+                return k
+        return "unknown"
+    if data[4:9] == PING_MARK:
+        return "ping" if len(data) >= 15 else "short_ping"
+    return "garbage"
+
+
 def p2p_bytes(op) -> bytes:
+    if op.get("cut") is not None:
+        return p2p_bytes({k: v for k, v in op.items() if k != "cut"})[: op["cut"]]
     kind = op["kind"]
     n = op.get("n", 33)
     if kind in ("reg", "dmr", "rdac", "unknown", "ack"):
@@ -280,8 +295,8 @@ class Runner:
 
     # -- P2P ---------------------------------------------------------------------------------------
     def apply_p2p(self, op, addr):
-        kind = op["kind"]
         data = p2p_bytes(op)
+        kind = op["kind"] if op.get("cut") is None else p2p_classify(data)
         n = len(data)
         rec = self.recs.get(addr)
         registered = bool(rec and rec["registered"])
@@ -542,16 +557,107 @@ def _enumerate(ctx, sub, t, prefix_ops, symbols, first, depth, label):
                 t.sample(sub.name, {"prefix_ops": len(prefix_ops), "symbols": idx})
 
 
+def _model_state(r):
+    return (dict(r.step), {k: v["registered"] for k, v in r.recs.items()}, len(r.completed))
+
+
+def _probe(ctx, sub, t, prefix_ops, probes, label):
+    """Deliver each probe datagram after the history prefix_ops.  The Runner is shared between probes as long as a probe left the
+    model state unchanged (otherwise the prefix is replayed on a fresh Runner); a failure is re-judged by a fresh replay of
+    prefix + [probe], or of everything the shared Runner saw when that alone does not reproduce it."""
+    r, seen = None, []
+    for probe in probes:
+        if r is None:
+            r, seen = Runner(), list(prefix_ops)
+            try:
+                for op in prefix_ops:
+                    r.apply(op)
+            except Exception:
+                r.close()
+                ctx.run_case(sub.name, oracle_history, {"ops": list(prefix_ops)}, t)  # judged there (the sequence part covers it too)
+                return
+        before = _model_state(r)
+        seen.append(probe)
+        failed = False
+        try:
+            r.apply(probe)
+        except Fail:
+            failed = True
+        except Exception as e:
+            if not lib_raised(e):
+                r.close()
+                raise
+            failed = True
+        if failed:
+            bucket_total = sum(t.fail_counts.values())
+            if bucket_total < 12:
+                held = ctx.run_case(sub.name, oracle_history, {"ops": list(prefix_ops) + [probe]}, t)
+                if held and not t.known:
+                    ctx.run_case(sub.name, oracle_history, {"ops": list(seen)}, t)
+            else:
+                t.fail_counts[max(t.fail_counts, key=t.fail_counts.get)] += 1  # only counted (keeps failing trees fast)
+        t.case(sub.name, nontrivial=r.nontrivial(), cls=f"{label}probe" if not failed else "failing")
+        if failed or _model_state(r) != before:
+            r.close()
+            r = None
+    if r is not None:
+        r.close()
+
+
+def _p2p_probes(full: bool):
+    """every proper prefix of registration / DMR start-up / RDAC start-up / ping / ack datagrams, and each with 1..3 octets added"""
+    out = []
+    for kind, n, fill in [("reg", 33, "a1"), ("dmr", 33, "b2"), ("rdac", 34, "c3"), ("ping", 20, "5a"), ("ack", 28, "d4")]:
+        base = {"k": "p2p", "peer": 0, "kind": kind, "n": n, "fill": fill}
+        cuts = range(n) if full else [c for c in (0, 2, 3, 4, 8, 9, 12, 13, 14, 15, 16, 20, 21, n - 1) if c < n]
+        out += [dict(base, cut=c) for c in cuts]
+        out += [dict(base, n=n + extra) for extra in (1, 2, 3)]
+    return out
+
+
+P2P_PROBE_STATES = [[], [{"k": "cfg", "peer": 0, "out": 1}], [P2P_SYMBOLS[0]], [{"k": "cfg", "peer": 0, "out": 1}, P2P_SYMBOLS[0]]]
+
+
 def drv_p2p(ctx: Ctx, sub: SubCheck):
     depth = ctx.pick(3, 4)
 
     def work(first, t: Tally):
         _enumerate(ctx, sub, t, [], P2P_SYMBOLS, first, depth, "")
+        # truncated / prefix datagrams as the last datagram after [state prefix, this symbol]
+        for state in P2P_PROBE_STATES:
+            _probe(ctx, sub, t, state + [P2P_SYMBOLS[first]], _p2p_probes(full=True), "after_symbol_")
+            if not ctx.quick:
+                for second in range(len(P2P_SYMBOLS)):
+                    _probe(ctx, sub, t, state + [P2P_SYMBOLS[first], P2P_SYMBOLS[second]], _p2p_probes(full=False), "after_2_symbols_")
 
     ctx.shards(work, list(range(len(P2P_SYMBOLS))))
+    for state in P2P_PROBE_STATES:  # peer 0 unknown / known but unregistered / registered / registered with an outbound address
+        _probe(ctx, sub, ctx.tally, state, _p2p_probes(full=True), "single_")
     ctx.tally.exhaustive[sub.name] = True
     ctx.tally.extra.setdefault("exhaustive_history_length", {})["p2p"] = depth
-    ctx.tally.notes.append(f"{sub.name}: all sequences of length <= {depth} over {len(P2P_SYMBOLS)} symbols (the property text's length 7 is ~1e10 sequences and is not attempted)")
+    ctx.tally.notes.append(f"{sub.name}: all sequences of length <= {depth} over {len(P2P_SYMBOLS)} symbols (the property text's length 7 is ~1e10 sequences and is not attempted); "
+                           "every proper prefix of the registration / DMR / RDAC start-up / ping / ack datagrams (and each with 1-3 octets added) is delivered as a "
+                           "probe from peer 0 in 4 states (unknown, known unregistered, registered, registered with outbound address), alone and after every symbol")
+
+
+RDAC_FULL_LEN = 220
+
+
+def _rdac_probes(full: bool):
+    """every proper prefix (and the response with 1..3 octets added) of each of the four step responses FD / 10 / 00 / FA, and the
+    prefixes of the garbage datagram; the one-byte start-up datagram has only the empty prefix (n = 0)"""
+    lengths = [n for n in range(RDAC_FULL_LEN + 4) if n != RDAC_FULL_LEN] if full else [0, 2, 3, 4, 5, 26, 27, 107, 216, 219, 221]
+    out = [{"k": "rdac", "peer": 0, "kind": "pfx", "x": x, "n": n, "fill": "4100"} for x in (0xFD, 0x10, 0x00, 0xFA) for n in lengths]
+    out += [{"k": "rdac", "peer": 0, "kind": "garbage", "hex": "7e0401fd00"[: 2 * n]} for n in range(5)]
+    return out
+
+
+def _rdac_prefix(si):
+    """ops that drive peer 0 from a fresh handler to STEPS[si] (si expected responses); from step 3 on a second peer waits at step 2"""
+    prefix = [{"k": "rdac", "peer": 0, "kind": "expected"} for _ in range(si)]
+    if si >= 3:
+        prefix = [{"k": "rdac", "peer": 1, "kind": "expected"}, {"k": "rdac", "peer": 1, "kind": "expected"}] + prefix
+    return prefix
 
 
 def drv_rdac(ctx: Ctx, sub: SubCheck):
@@ -561,18 +667,24 @@ def drv_rdac(ctx: Ctx, sub: SubCheck):
 
     def work(item, t: Tally):
         si, first = item
-        n_expected = si  # STEPS[si] is reached from a fresh handler by si expected responses
-        prefix = [{"k": "rdac", "peer": 0, "kind": "expected"} for _ in range(n_expected)]
-        if si >= 3:
-            prefix = [{"k": "rdac", "peer": 1, "kind": "expected"}, {"k": "rdac", "peer": 1, "kind": "expected"}] + prefix  # a second peer waits at step 2
+        prefix = _rdac_prefix(si)
         _enumerate(ctx, sub, t, prefix, RDAC_SYMBOLS, first, depth_fresh if si == 0 else depth_from_step, f"from_step_{STEPS[si]}_")
+        # truncated / prefix datagrams as the last datagram after [drive to step, this symbol]
+        _probe(ctx, sub, t, prefix + [RDAC_SYMBOLS[first]], _rdac_probes(full=not ctx.quick), f"from_step_{STEPS[si]}_after_symbol_")
 
     ctx.shards(work, items)
+
+    def single(si, t: Tally):  # every prefix probe as the only datagram after peer 0 was driven to each step (si = 0: fresh handler)
+        _probe(ctx, sub, t, _rdac_prefix(si), _rdac_probes(full=True), f"from_step_{STEPS[si]}_single_")
+
+    ctx.shards(single, list(range(len(STEPS))))
     ctx.tally.exhaustive[sub.name] = True
     ctx.tally.extra.setdefault("exhaustive_history_length", {})["rdac"] = {"fresh": depth_fresh, "from_each_of_14_steps": depth_from_step}
     ctx.tally.notes.append(
         f"{sub.name}: all sequences over {len(RDAC_SYMBOLS)} symbols of length <= {depth_fresh} from a fresh handler and <= {depth_from_step} after peer 0 was "
-        f"driven to each of the 14 reachable steps (a second peer parked at step 2)"
+        f"driven to each of the 14 reachable steps (a second peer parked at step 2); from a fresh handler and from each of the 14 steps every proper "
+        f"prefix (0..219 octets) and every 1-3 octet extension of the four step responses FD/10/00/FA and the prefixes of a garbage datagram are "
+        f"delivered as single probes, and a reduced (quick) / the full (thorough) probe set after every single symbol"
     )
 
 
